@@ -1,6 +1,6 @@
 import tempfile, os, logging, copy, shutil, warnings
 warnings.filterwarnings('ignore'); logging.disable(logging.CRITICAL)
-exec(open('/tmp/proto/repro/eng.py').read().split("e=new_engine()")[0])
+exec(open(__import__('os').path.join(__import__('os').path.dirname(__import__('os').path.abspath(__file__)), 'eng.py')).read().split("e=new_engine()")[0])
 e=new_engine()
 r=run(e, req([(enums.Operation.CREATE, create_payload())])); print('create', r[0][0])
 for val in (False, True):
